@@ -119,7 +119,7 @@ macro_rules! persist_pkg {
                 if json { serde_json::to_vec(self).map_err(|e| e.to_string()) } else { self.serialize().map_err(|e| format!("{e:?}")) }
             }
             fn dec(b: &[u8], json: bool) -> Result<Self, String> {
-                if json { serde_json::from_slice(b).map_err(|e| e.to_string()) } else { <$T>::deserialize(b).map_err(|e| format!("{e:?}")) }
+                if json { std::str::from_utf8(b).map_err(|e| e.to_string()).and_then(json_all_routes) } else { <$T>::deserialize(b).map_err(|e| format!("{e:?}")) }
             }
         }
     )*};
@@ -143,7 +143,7 @@ macro_rules! persist_prim {
                 if json { serde_json::to_vec(self).map_err(|e| e.to_string()) } else { Ok(self.serialize()) }
             }
             fn dec(b: &[u8], json: bool) -> Result<Self, String> {
-                if json { serde_json::from_slice(b).map_err(|e| e.to_string()) } else { <$T>::deserialize(b).map_err(|e| format!("{e:?}")) }
+                if json { std::str::from_utf8(b).map_err(|e| e.to_string()).and_then(json_all_routes) } else { <$T>::deserialize(b).map_err(|e| format!("{e:?}")) }
             }
         }
     )*};
@@ -188,7 +188,7 @@ impl<C: Suite> Persist for Id<C> {
         if json { serde_json::to_vec(self).map_err(|e| e.to_string()) } else { Ok(self.serialize()) }
     }
     fn dec(b: &[u8], json: bool) -> Result<Self, String> {
-        if json { serde_json::from_slice(b).map_err(|e| e.to_string()) } else { Id::<C>::deserialize(b).map_err(|e| format!("{e:?}")) }
+        if json { std::str::from_utf8(b).map_err(|e| e.to_string()).and_then(json_all_routes) } else { Id::<C>::deserialize(b).map_err(|e| format!("{e:?}")) }
     }
 }
 impl<V: Persist> Persist for Vec<V> {
